@@ -8,7 +8,7 @@ cp -r /repo/nessai "$S/nessai"
 sed -i "$SED" "$S/$F"
 if diff -q /repo/$F "$S/$F" >/dev/null; then echo "MUTATION DID NOT APPLY"; rm -rf "$S"; exit 9; fi
 diff /repo/$F "$S/$F" | head -6
-NESSAI_REPO=$S /verif/vcheck "$P" "$@"; rc=$?
+NESSAI_REPO=$S PYVC_OUT=$S/out /verif/vcheck "$P" "$@"; rc=$?
 rm -rf "$S"
 echo "exit=$rc"
 exit $rc
